@@ -216,3 +216,146 @@ class InvokeBatch(Contract):
 
     def x_any(self, E, old, st, a, exc):
         return [("the failure is that of the one request", self.shape(st))]
+
+
+# ------------------------------------------------------------------------------------------------------------------------------------------ metadata request
+@R.spec("Pyro5.client.Proxy.__pyroCreateConnection", doc="declared here: connects (event); afterwards the proxy may or may not hold metadata (the handshake reply can carry it); any Exception")
+def create_connection_decl(E, st, args, kw):
+    p = args[0]
+    st.event("create_connection")
+    st.set(p, "_pyroConnection", VOpaque(fresh("connection", U)))
+    st.assume(st.get(p, "_pyroConnection").e != U_NONE)
+    st.set(p, "_pyroMethods", _Names(fresh("methods_after_handshake", BoolS)))
+    st.set(p, "_pyroAttrs", _Names(fresh("attrs_after_handshake", BoolS)))
+    return [Res(st, VBool(True)), may_raise(E, st, "createConnection")]
+
+
+@R.spec("Pyro5.client.Proxy.__processMetadata", doc="declared here: stores the three name sets of the metadata it is given on the proxy (event); PyroError when nothing is exposed")
+def process_metadata_decl(E, st, args, kw):
+    st.event("process_metadata", args[1])
+    return [Res(st, NONE), E.raise_(st.fork(), "Pyro5.errors.PyroError")]
+
+
+class _Names(V):
+    """a name set of the proxy as far as this function looks at it: empty or not"""
+    __slots__ = ("nonempty",)
+
+    def __init__(self, nonempty):
+        self.nonempty = nonempty
+
+    def truth_term(self):
+        return self.nonempty
+
+
+R.glob("Pyro5.core.DAEMON_NAME", VStr("Pyro.Daemon"), "the reserved id of the daemon's own object")
+
+
+@R.contract
+class GetMetadataClient(Contract):
+    name = "Pyro5.client.Proxy._pyroGetMetadata#body"
+    real_name = "Pyro5.client.Proxy._pyroGetMetadata"
+    props = ("C03", "C02")
+    variants = ("ask-the-daemon", "known-metadata")
+    raises = {"builtins.Exception": "x_any"}
+    raises_any_subclass = ("builtins.Exception",)
+    no_join = True
+    log_calls = False
+    trusted = ("Proxy._pyroInvoke, __pyroCreateConnection and __processMetadata by their declared interfaces (bodies: contracts/client_invoke.py, client_connect.py)",)
+
+    def setup(self, E, st):
+        p = st.new_obj("Pyro5.client.Proxy")
+        self.connected = z3.Bool("already_connected")
+        st.set(p, "_pyroConnection", VOpt(z3.Not(self.connected), VOpaque(z3.Const("existing_connection", U))))
+        st.set(p, "_pyroMethods", _Names(z3.Bool("has_methods")))
+        st.set(p, "_pyroAttrs", _Names(z3.Bool("has_attrs")))
+        st.set(p, "_pyroUri", st.new_obj("Pyro5.core.URI", object=VOpaque(z3.Const("uri_object", U))))
+        self.oid = VOpaque(z3.Const("objectId", U))
+        self.known = VOpaque(z3.Const("known_metadata", U)) if self.variant == "known-metadata" else NONE
+        if self.variant == "known-metadata":
+            st.assume(self.known.e != U_NONE, truthy(self.known.e))
+        return {"self": p, "objectId": self.oid, "known_metadata": self.known}
+
+    def shape(self, st):
+        inv = [e for e in st.events if e[0] == "_pyroInvoke"]
+        con = [e for e in st.events if e[0] == "create_connection"]
+        proc = [e for e in st.events if e[0] == "process_metadata"]
+        return inv, con, proc
+
+    def clauses(self, st):
+        inv, con, proc = self.shape(st)
+        post = [("at most one connection attempt and at most one remote request", z3.BoolVal(len(con) <= 1 and len(inv) <= 1)),
+                ("metadata is processed at most once", z3.BoolVal(len(proc) <= 1))]
+        if self.variant == "known-metadata":
+            post.append(("metadata that is already known is used as it is: nothing is connected, nothing is asked", z3.BoolVal(not inv and not con)))
+            post.append(("... and it is what gets processed", z3.BoolVal(all(isinstance(e[1], VOpaque) and z3.eq(e[1].e, self.known.e) for e in proc))))
+        for e in inv:
+            args, kw = e[1], e[2]
+            ok = len(args) == 3 and isinstance(args[0], VStr) and isinstance(args[1], VList) and len(args[1].items) == 1 and set(kw) == {"objectId"} and isinstance(kw["objectId"], VStr)
+            post.append(("the one request is get_metadata(<the object id>) addressed to the daemon's own object", z3.And(
+                args[0].e == z3.StringVal("get_metadata"), kw["objectId"].e == z3.StringVal("Pyro.Daemon")) if ok else z3.BoolVal(False)))
+        return post
+
+    def ensures(self, E, old, st, a, result):
+        return self.clauses(st)
+
+    def x_any(self, E, old, st, a, exc):
+        return self.clauses(st)
+
+
+set_of = z3.Function("set_of_names", U, U)
+R.glob("logging.DEBUG", VInt(10), "logging.DEBUG == 10")
+
+
+@R.spec("builtins.set", doc="set(<opaque iterable>): the set of its elements (uninterpreted), or TypeError when it is not iterable")
+def set_of_opaque(E, st, args, kw):
+    if len(args) == 1 and isinstance(args[0], VOpaque):
+        r = set_of(args[0].e)
+        st.assume(r != U_NONE)
+        return [Res(st, VOpaque(r)), E.raise_(st.fork(), "builtins.TypeError")]
+    raise Unsupported("set(%r)" % (args,))
+
+
+@R.spec("builtins.sorted", doc="sorted(x): only used in a debug log line")
+def sorted_any(E, st, args, kw):
+    return [Res(st, VOpaque(fresh("sorted", U)))]
+
+
+@R.contract
+class ProcessMetadata(Contract):
+    name = "Pyro5.client.Proxy.__processMetadata#body"
+    real_name = "Pyro5.client.Proxy.__processMetadata"
+    props = ("C02", "C03")
+    raises = {"Pyro5.errors.PyroError": "x_nothing_exposed", "builtins.Exception": "x_malformed"}
+    raises_any_subclass = ("builtins.Exception",)
+    no_join = True
+    log_calls = False
+    trusted = ("the metadata is an opaque mapping (what the daemon's get_metadata sent): a missing key / non-iterable value raises; logging is dropped",)
+
+    def setup(self, E, st):
+        p = st.new_obj("Pyro5.client.Proxy")
+        for n in ("_pyroOneway", "_pyroMethods", "_pyroAttrs"):
+            st.set(p, n, VOpaque(z3.Const("old" + n, U)))
+        st.set(p, "_pyroUri", VOpaque(z3.Const("uri", U)))
+        self.p = p
+        self.md = VOpaque(z3.Const("metadata", U))
+        return {"self": p, "metadata": self.md}
+
+    def member(self, k):
+        from specs.opaque import u_getitem
+        return set_of(u_getitem(self.md.e, box_str(z3.StringVal(k))))
+
+    def ensures(self, E, old, st, a, result):
+        given = z3.And(self.md.e != U_NONE, truthy(self.md.e))
+        same = z3.And(*[st.get(self.p, n).e == old.get(self.p, n).e for n in ("_pyroOneway", "_pyroMethods", "_pyroAttrs")])
+        took = z3.And(st.get(self.p, "_pyroOneway").e == self.member("oneway"), st.get(self.p, "_pyroMethods").e == self.member("methods"),
+                      st.get(self.p, "_pyroAttrs").e == self.member("attrs"))
+        return [("empty / absent metadata changes nothing; otherwise the proxy's three name sets become exactly the sets of the metadata's oneway / methods / attrs entries",
+                 z3.If(given, took, same)),
+                ("metadata that exposes nothing is never accepted silently", z3.Implies(given, z3.Or(truthy(self.member("methods")), truthy(self.member("attrs")))))]
+
+    def x_nothing_exposed(self, E, old, st, a, exc):
+        # (a PyroError can also come out of reading a malformed metadata mapping; the direction that matters is the postcondition: never accepted silently)
+        return []
+
+    def x_malformed(self, E, old, st, a, exc):
+        return []
